@@ -45,7 +45,7 @@ CLAIMS["C12"] = {
             "each operand/atom/set/node value produced by a parsing call is used (MUSTUSE, path-sensitive must-use over MIR with "
             "reference aliasing). A dropped operand is exactly the /[a&b]/v defect class. Also: string alternatives are sorted longest first "
             "(STRSORT) and a class set is complemented only after its string alternatives were checked (NEGSTR).",
-    "note": COMMON_NOTE + "Not decided: the interval algebra of CodePointSet (add/remove/intersect/inverted) and the v+i complement rule, which are value-level.",
+    "note": COMMON_NOTE + "Also decided: `inverted` pushes an interval exactly where its sibling inverted_interval_count counts one (COUNTSIB); the polarity of \\P reaches the set built from it at every parse site (PROPNEG); operand membership tests look at the other operand (CROSSMEMB). Not decided: the rest of the interval algebra of CodePointSet (add/remove/intersect) and the v+i complement rule, which are value-level.",
     "technique": "MIR path-sensitive must-use dataflow over parsed-fragment types",
 }
 
@@ -72,7 +72,7 @@ CLAIMS["C04"] = {
     "text": "Decides that the start-predicate abstraction is sound per node kind: for each ir::Node variant the arm of compute_start_predicate and "
             "is_start_anchored is summarised (delegation, guards, disjunction, first-non-None) and must be one of the shapes the node's semantics "
             "allow (zero-width => None/Arbitrary, loops delegate only under min >= 1, Alt = disjunction of both or Arbitrary, Alt anchored only if both are).",
-    "note": COMMON_NOTE + "Not decided: the byte arithmetic of disjunction / ByteBitmap / utf8_first_byte (value-level).",
+    "note": COMMON_NOTE + "Also decided: the join of two start predicates treats (A,B) like (B,A) (COMMUTE), every ByteBitmap accessor uses the bit geometry `set` writes with and whole-array loops sweep 0..len (BITGEOM), a prefilter hit is only a candidate (PLUMB). Not decided: the remaining byte arithmetic (utf8_first_byte, shared-prefix computation).",
     "technique": "HIR per-variant symbolic arm summaries vs. a reviewed semantics table",
 }
 CLAIMS["C11"] = {
@@ -86,7 +86,7 @@ CLAIMS["C11"] = {
 CLAIMS["C13"] = {
     "text": "Decides that narrowing a pattern character to the input's element type can only mean 'this character does not match' (NARROW): the one "
             "place where the ASCII and UTF-8 executors diverged structurally.",
-    "note": COMMON_NOTE + "Not decided: agreement of decoding and folding between AsciiInput and Utf8Input on all inputs (value-level).",
+    "note": COMMON_NOTE + "Also decided: the ASCII entry points hand text/start on unchanged like their UTF-8 siblings (PLUMB entry clause), ASCII folding is to_ascii_lowercase/uppercase (ASCIIFOLD), no unreviewed truncating cast exists (TRUNCAST). Not decided: agreement of decoding and folding between AsciiInput and Utf8Input on all inputs (value-level).",
     "technique": "MIR path rule: Option None-edge must not propagate straight to a failure return",
 }
 
@@ -134,7 +134,7 @@ CLAIMS["C10"] = {
             "ASCII executor hard-codes, that the \\b table equals {c >= 0x80 : fold(c) is an ASCII word char} derived from FOLDS, that the legacy "
             "non-ASCII-to-ASCII exclusion guards every use of TO_UPPERCASE, and UAX #44 identities tying the case tables to the binary "
             "properties. The legacy class closure (add_icase_code_points reaches only FOLDS) is reported as a known finding.",
-    "note": COMMON_NOTE + "Not decided: equality of the tables with Unicode 17 CaseFolding.txt / UnicodeData.txt (no copy offline; identities only catch internal inconsistency).",
+    "note": COMMON_NOTE + "Also decided: CharSet members come only from the fold tables (CASESRC), icase backreferences are decided by folded code-point comparison and never by encoded length (BACKREFI), add_delta is only applied to stride-aligned code points (STRIDE). Not decided: equality of the tables with Unicode 17 CaseFolding.txt / UnicodeData.txt (no copy offline; identities only catch internal inconsistency).",
     "technique": "interval/table algebra over constants extracted from the type-checked crate + MIR value-flow for the legacy guard + call-graph reachability to tables",
     "design_ref": "DESIGN.md §3 TABLES/WIRING, §4 C10",
 }
@@ -144,7 +144,7 @@ CLAIMS["C17"] = {
     "text": "Decides the splice loops of replace / replace_with / replace_all / replace_all_with: the haystack is only sliced as the gap before a "
             "match and the tail after the last one, the cursor only ever moves to m.end(), and gap, insertion and cursor update happen in that "
             "order on every path (SPLICE) - so unmatched text is preserved byte for byte whatever the template expands to.",
-    "note": COMMON_NOTE + "Not decided: the `$` template scanner (a value-level state machine) and the match sequence itself (C01/C09).",
+    "note": COMMON_NOTE + "Also decided: no path of the loop over matches skips the gap copy, the insertion or the cursor update (no match left unreplaced), and the `$` template scanner only discards a character it recognised through a peek test (SCANNER). Not decided: the numeric/name interpretation inside the template scanner (value-level) and the match sequence itself (C01/C09).",
     "technique": "MIR value-flow + dominators over the slicing calls and cursor updates of the four replace functions",
 }
 CLAIMS["C18"] = {
@@ -163,7 +163,7 @@ CLAIMS["C15"] = {
             "is itself a violation; IndexPosition and RefPosition operators normalise to the same ADD/SUB/DIFF forms (POSSIB); no HashMap iteration "
             "order leaks (HASHITER); every cfg site is classified (CFGINV); decoder twins also agree under index positions (SIBPOS) and the utf16 "
             "literal lowering is direction-aware (LBSEQ).",
-    "note": COMMON_NOTE + "Trusted, not decided: the one non-idiom twin ByteBitmap::find_in (linear scan vs align_to chunks). Not decided: equivalence of the two "
+    "note": COMMON_NOTE + "The non-idiom twin ByteBitmap::find_in (linear scan vs align_to chunks) is not compared as a tree; BITGEOM decides that the chunked arm uses the bit geometry of `contains`. BACKREFI decides that positions are only walked through the indexer they came from (index-positions), COMMUTE that the default-only prefilter join is symmetric. Not decided: equivalence of the two "
             "literal lowerings (utf16 vs byte), which are different algorithms.",
     "technique": "normalised-HIR tree comparison across feature configurations with a reviewed idiom table (each configuration type-checked by the driver)",
 }
@@ -172,7 +172,7 @@ CLAIMS["C20"] = {
             "path of next/next_back: each emitted step starts at the cursor and the cursor stored equals the step's end (TILING, symbolic path "
             "summaries); the regex is only run through find_from on the whole haystack at the cursor. The empty-match advance (cursor moved past the "
             "step without emitting one) is reported as the two known findings quoted in the property.",
-    "note": COMMON_NOTE + "Not decided: that next_back visits the same matches as find_iter, and char-boundary-ness of match bounds (inherits C06/C09).",
+    "note": COMMON_NOTE + "Also decided: the searcher starts un-exhausted at 0 / haystack.len() (INIT) and every +-1 walk off a UTF-8 interior tests is_char_boundary on the offset it steps (BOUND). Not decided: that next_back visits the same matches as find_iter, and char-boundary-ness of the match bounds themselves (inherits C06/C09).",
     "technique": "symbolic path summaries of the searcher step functions (cursor value vs. emitted step bounds) under cargo +nightly --features pattern",
 }
 
